@@ -454,7 +454,11 @@ type Errs struct{ list []string }
 
 func (e *Errs) Addf(format string, args ...any) {
 	if len(e.list) < 40 {
-		e.list = append(e.list, fmt.Sprintf(format, args...))
+		m := fmt.Sprintf(format, args...)
+		if len(m) > 400 {
+			m = m[:400] + "...(truncated)"
+		}
+		e.list = append(e.list, m)
 	}
 }
 func (e *Errs) Len() int       { return len(e.list) }
